@@ -11,7 +11,7 @@ Open Scope bool_scope.
 (* ---------- one step of the loops ---------- *)
 Definition rm_list_step (s : schema) (extract : bool) (T : pset) (t : listT)
   (item : value) (rest : list value) : list value :=
-  let e := list_item_to_pe s t item in
+  let e := list_item_pe_or_zero s t item in
   let has := rm_has T e in
   let subset := rm_subset T e in
   if has && negb extract then rest
@@ -91,7 +91,7 @@ Proof. reflexivity. Qed.
 Lemma rm_list_go_empty : forall s t l, rm_list_go s false ps_empty_set t l = l.
 Proof.
   intros s t l. apply rm_list_go_id. intros x rest _. unfold rm_list_step.
-  destruct (list_item_to_pe s t x) as [e|]; reflexivity.
+  reflexivity.
 Qed.
 
 Lemma rm_map_go_empty : forall s t m, rm_map_go s false ps_empty_set t m = m.
